@@ -37,7 +37,7 @@ var theT *testing.T
 
 func init() {
 	log.SetOutput(io.Discard)
-	time.Local = time.UTC
+	time.Local = time.FixedZone("+1245", (12*60+45)*60) // local time is neither UTC nor on a whole hour
 }
 
 func scratchRoot() string {
